@@ -20,13 +20,13 @@ CLAIMED = {
   "C09": "No panic, no lock left held, no blocking, no zero-progress result on any path for: every stream buffer up to 70000 bytes (framer, ReadFrom), every server datagram up to 24 bytes and every method with any TURN attribute of any size/content, every client datagram up to 28 (32) bytes, full inbound queues, a refused Allocate followed by Refresh/Allocate/Close, duplicate TCP Connect, stream frames larger than the read buffer; unknown comprehension-required attributes answered 420; the server still answers a Binding request afterwards.",
   "C10": "The stream framer equals an int-arithmetic reference framer on every buffer; one ReadFrom step from an arbitrary buffered prefix with arbitrary further cuts returns exactly the reference frame, consumes exactly its bytes, keeps the rest in its own memory (inductive step for streams of any length); the ConnectionBind reply is parsed identically for every cut of the stream.",
   "C11": "ChannelData encode/decode for all 2^16 numbers and payload lengths 0..65535, decode-iff-wellformed on arbitrary raw buffers, clean padding on re-encode; all eleven TURN attribute codecs round-trip over their whole domains and reject every wrong-sized raw value (0..24 bytes).",
-  "C12": "Client transactions on the real Client/Transaction code with goroutines as cooperative threads: 7 transmissions at RTO, doubling, capped 1.6 s for every RTO in (0,1.6 s]; completion exactly once by the response with the matching id (any id symbolic), duplicates/strangers ignored; Close and write errors release the caller; fire-and-forget failures and first-write errors leave nothing in the table; completions only under the table lock.",
+  "C12": "Client transactions on the real Client/Transaction code with goroutines as cooperative threads: 7 transmissions at RTO, doubling, capped 1.6 s for every RTO in (0,1.6 s]; completion exactly once by the response with the matching id (any id symbolic), duplicates/strangers ignored; Close and write errors release the caller; fire-and-forget failures and first-write errors leave nothing in the table; completions only under the table lock; every schedule of 7 (9) events from {timer callback incl. late ones, matching response incl. duplicates, foreign response, Close}: the caller is released exactly once exactly when due, one transmission per elapsed interval, nothing afterwards; the response arriving while a retransmission is inside the socket write.",
   "C13": "Relayed socket: data only after a CreatePermission success (all server reactions, up to 3 attempts), ChannelData only on a binding the server confirmed for that exact peer/number (also after repeated lost binds), own number per peer in range; ReadFrom returns queued payloads unchanged, honours deadline (also one set while a reader is blocked) and Close (repeatedly, also when the deallocating Refresh cannot be sent); inbound queues never block.",
   "C14": "Compositional (weaker than the other claims, see DESIGN.md C14): solver-checked ingredients on the real code - refresh intervals wired by NewUDPConn for all configurations, PeriodicTimer re-arms the full interval every round and stops cleanly (goroutine as cooperative thread), allocation / permission / binding refresh rounds (438 retry with the new nonce, every peer named, refresh iff older than the refresh age), Close stops the timers and sends Refresh(0), and the schedule inequality period + 3 transactions + jitter < server timeout from the constants in the code.",
   "C15": "Teardown balance: after expiry, DeleteAllocation, relay/listener failure or Manager.Close every socket is closed exactly once, every timer stopped, tables empty (also with three bindings), created/deleted events pair up, repeated deletes release and report nothing, failed Allocate/Connect (UDP and TCP transport) and EVEN-PORT probing leave nothing open or registered, nothing is released by something that does not own it.",
   "C16": "TCP relay connection table and handlers: ids unique (also across allocations), bind succeeds iff right id and owner and only once, refused binds consume nothing and leave the deadline running, 30 s deadline armed and effective, Connect error mapping 403/446/447 (446 also when the peer is named in IPv4-mapped form), inbound connections need a permission, ConnectionBind starts both copy directions and cleans up; the manager lock is free on every path. Byte piping on the real io.Copy loops as goroutines over harness-driven streams: chunks in flight in both directions at once arrive unmodified, once and in order, and the end of either side closes both connections and forgets the id.",
   "C17": "Both credential generators against the matching handlers with clock, duration, secret, user (also containing ':') and realm symbolic (IA arithmetic): accepted at every instant up to the expiry time, rejected from one second after it, also on repeated validation; the returned key is the same term as GenerateAuthKey(username, realm, generated password); non-numeric usernames rejected. HMAC/MD5/base64 are uninterpreted functions.",
-  "C18": "Sequential lock discipline on every path of every harness that serves C18 (lock balance, self-deadlock, recursive RLock, unlock of unheld mutex), the publication invariant at every callback, and guarded-by for the allocation table, permission tables and the client's transaction table. Data races and interleavings are outside the technique.",
+  "C18": "Sequential lock discipline on every path of every harness that serves C18 (lock balance, self-deadlock, recursive RLock, unlock of unheld mutex), the publication invariant at every callback, and guarded-by for the allocation table, permission tables and the client's transaction table. Scripted interleavings on the real code (cooperative goroutines, mutexes blocking across them, pre-emption where a harness fake holds a socket write, a dial or a lifecycle callback): teardown during a slow callback (reproduces the nil-timer crash of the unrepaired tree), teardown during a slow dial, a timer firing while a request is inside its socket write, a response during a retransmission, Close with a blocked reader. Interleavings that are not scripted, and data races as such, are outside the technique.",
   "C19": "Response correlation on every handler harness and on raw/structured server input (transaction id, method, destination, at most one response), Binding reports exactly the source address, Allocate success reports true mapped/relayed address and the lifetime armed (RESERVATION-TOKEN with EVEN-PORT), a retransmission gets the same success again without creating anything, any other Allocate (even malformed, even by another user) gets 437 with no change.",
   "C20": "All three generators over a fake transport.Net: every bind attempt of the port-range generator lies in [MinPort, MaxPort] for all 2^32 configurations with MinPort <= MaxPort and all random outputs (Intn argument always positive), advertised IP is the configured one, advertised port is the bound port, requested ports pass through, failure leaves nothing open.",
 }
